@@ -447,6 +447,11 @@ def record_sur(sc):
     dim, seed = sc["dim"], sc["seed"]
     names = ["p%d" % i for i in range(dim)]
     kw = {} if sc["kdef"] else dict(noise_var=0.25)
+    if sc.get("kern") == "ard":
+        # a user's own kernel of the SAME FORM as the default one (RBF + Bias) but with one length-scale per input: whatever path
+        # the surrogate takes for it, its answers are the GP library's
+        import GPy
+        kw = dict(kernel=GPy.kern.RBF(input_dim=dim, ARD=True, lengthscale=[0.6, 2.5, 1.2][:dim]) + GPy.kern.Bias(input_dim=dim))
     rs = np.random.RandomState(seed % (2 ** 31))
     with warnings.catch_warnings():
         warnings.simplefilter("ignore")
@@ -568,6 +573,12 @@ def sur_scenarios(ctx):
     n_pinned = len(out)
     for j, (kdef, hist) in enumerate(useful):
         out.append(dict(part="sur", name="emitted", dim=1 + (j + ctx.seed) % 3, seed=rnd.randint(0, 2 ** 30), kdef=kdef, hist=hist))
+        if not kdef and out[-1]["dim"] >= 2 and j % 2 == 0:
+            out[-1]["kern"] = "ard"
+    # the pinned histories (sampling-mode queries after updates) also on a user's ARD kernel of the default form
+    for j, p in enumerate(PINNED_SUR):
+        for dim in (2, 3):
+            out.append(dict(part="sur", name=p["name"] + "/ard", dim=dim, seed=ctx.seed * 1000 + 19 * j + dim, kdef=False, kern="ard", hist=p["hist"]))
     return out, n_pinned, len(hists)
 
 
